@@ -7,8 +7,10 @@ import (
 	"strconv"
 	"strings"
 
+	"github.com/rkosegi/yaml-toolkit/diff"
 	"github.com/rkosegi/yaml-toolkit/dom"
 	"github.com/rkosegi/yaml-toolkit/patch"
+	"github.com/rkosegi/yaml-toolkit/xform"
 )
 
 // ---------- RFC 6902 reference interpreter over plain values (independent of the toolkit)
@@ -100,6 +102,8 @@ type rop struct {
 	HasFrom bool     `json:"-"`
 	Val     any      `json:"value,omitempty"`
 	HasVal  bool     `json:"-"`
+	// an operation object made by the library itself (xform.DiffMod2PatchOp): handed to patch.Do as it is
+	obj *patch.OpObj
 }
 
 func properPrefix(a, b []string) bool {
@@ -278,6 +282,9 @@ func toPath(p []string) patch.Path {
 }
 
 func (o rop) toOpObj() *patch.OpObj {
+	if o.obj != nil {
+		return o.obj
+	}
 	obj := &patch.OpObj{Op: patch.Op(o.Op), Path: toPath(o.Path)}
 	if o.HasVal {
 		obj.Value = anyToNode(o.Val)
@@ -389,6 +396,118 @@ func c09Run(r *rand.Rand, start map[string]any, ops []rop, gen func(cur any) rop
 		Fail: fail, Nontrivial: sawOkThenFail}
 }
 
+// the steps of a flatten-style path, read independently of the library: a.b[1][0].c -> a b 1 0 c
+func c09PathTokens(p string) []string {
+	var out []string
+	for _, comp := range strings.Split(p, ".") {
+		name := comp
+		var idx []string
+		for strings.HasSuffix(name, "]") {
+			i := strings.LastIndex(name, "[")
+			if i < 0 {
+				break
+			}
+			idx = append([]string{name[i+1 : len(name)-1]}, idx...)
+			name = name[:i]
+		}
+		out = append(append(out, name), idx...)
+	}
+	return out
+}
+
+// xform.DiffMod2PatchOp output fed to patch.Do: every modification of Diff(L, R) becomes an operation object (Add -> add,
+// Change -> replace, Delete -> remove, pointer = the steps of the modification's path, value = its leaf); the operations
+// are applied to R one after the other, each step against the RFC reference and the model
+func c09FromDiff(r *rand.Rand) Case {
+	o := defaultOpts()
+	o.maxDepth = 3
+	o.floats = false
+	l := c08GenDoc(r, o)
+	rr := c08Derive(r, l, o, []string{"n1", "n2", "zz"})
+	if r.Intn(3) == 0 {
+		l, rr = rr, l
+	}
+	var fail []string
+	var ops []rop
+	pn := guard(func() {
+		mods := *diff.Diff(anyToContainer(l), anyToContainer(rr))
+		for _, m := range mods {
+			obj := xform.DiffMod2PatchOp(m)
+			if obj == nil {
+				fail = append(fail, fmt.Sprintf("DiffMod2PatchOp(%v %s) returned no operation", m.Type, m.Path))
+				continue
+			}
+			want := map[diff.ModificationType]string{diff.ModAdd: "add", diff.ModChange: "replace", diff.ModDelete: "remove"}[m.Type]
+			toks := make([]string, 0, len(obj.Path))
+			for _, seg := range obj.Path {
+				toks = append(toks, string(seg))
+			}
+			if string(obj.Op) != want || !reflect.DeepEqual(toks, c09PathTokens(m.Path)) {
+				fail = append(fail, fmt.Sprintf("DiffMod2PatchOp(%v %s) = %s %v, expected %s %v", m.Type, m.Path, obj.Op, toks, want, c09PathTokens(m.Path)))
+			}
+			op := rop{Op: want, Path: toks, obj: obj}
+			if m.Type != diff.ModDelete {
+				if obj.Value == nil || !reflect.DeepEqual(nodeToAny(obj.Value), m.Value) {
+					fail = append(fail, fmt.Sprintf("DiffMod2PatchOp(%v %s): value %v, the modification carries %v", m.Type, m.Path, obj.Value, m.Value))
+				}
+				op.HasVal, op.Val = true, m.Value
+			}
+			ops = append(ops, op)
+		}
+		// an unknown modification type has no operation
+		if xform.DiffMod2PatchOp(diff.Modification{Type: "Rename", Path: "a"}) != nil {
+			fail = append(fail, "DiffMod2PatchOp made an operation out of an unknown modification type")
+		}
+	})
+	if pn != "" {
+		fail = append(fail, "panic: "+pn)
+	}
+	if len(ops) > 14 {
+		ops = ops[:14]
+	}
+	c := c09Run(r, rr, ops, nil, len(ops))
+	c.Kind = "from-diff"
+	c.Fail = append(fail, c.Fail...)
+	c.Nontrivial = len(ops) >= 2
+	return c
+}
+
+// operation objects that are no operations: patch.Do answers with an error, never with a panic, and leaves the document alone
+func c09Invalid(r *rand.Rand, start map[string]any) Case {
+	d := anyToContainer(start)
+	var fail []string
+	p := toPath([]string{"a"})
+	objs := map[string]*patch.OpObj{
+		"nil operation object": nil,
+		"operation without a path":      {Op: patch.OpAdd, Value: dom.LeafNode(1)},
+		"unknown operation name":        {Op: patch.Op("merge"), Path: p, Value: dom.LeafNode(1)},
+		"empty operation name":          {Path: p, Value: dom.LeafNode(1)},
+		"operation name in upper case":  {Op: patch.Op("ADD"), Path: p, Value: dom.LeafNode(1)},
+		"move without from":             {Op: patch.OpMove, Path: p},
+		"copy without from":             {Op: patch.OpCopy, Path: p},
+		"add without value":             {Op: patch.OpAdd, Path: p},
+		"replace without value":         {Op: patch.OpReplace, Path: p},
+		"test without value":            {Op: patch.OpTest, Path: p},
+	}
+	for _, name := range sortedKeys(objs) {
+		var err error
+		if pn := guard(func() { err = patch.Do(objs[name], d) }); pn != "" {
+			fail = append(fail, name+": panic: "+pn)
+		} else if err == nil {
+			fail = append(fail, name+": no error")
+		}
+		if !reflect.DeepEqual(nodeToAny(d), any(start)) {
+			fail = append(fail, name+": the document changed")
+			break
+		}
+	}
+	var err error
+	if pn := guard(func() { err = patch.Do(&patch.OpObj{Op: patch.OpAdd, Path: p, Value: dom.LeafNode(1)}, nil) }); pn != "" || err == nil {
+		fail = append(fail, fmt.Sprintf("a nil target: err=%v panic=%q", err, pn))
+	}
+	return Case{Kind: "invalid-object", Desc: map[string]any{"start": start}, Fail: fail, Nontrivial: true, Key: fmt.Sprint("invalid", r.Int())}
+}
+
 // copy then edit inside the copy: must not show through at the source
 func c09CopyEdit(r *rand.Rand, start map[string]any, o genOpts) Case {
 	// find a composite source
@@ -444,7 +563,7 @@ func c09CopyEdit(r *rand.Rand, start map[string]any, o genOpts) Case {
 func init() {
 	register(&Prop{
 		ID:   "C09",
-		Rule: "sequences of 1-12 JSON Patch operations (add, remove, replace, move, copy, test; value/from occasionally missing) on one generated document; pointers aimed at existing locations, sibling keys, index +-1/len/len+1, non-numeric / negative / non-canonical tokens on lists, scalar parents, moves into own descendants and onto themselves (incl. list items of every kind moved or copied beneath themselves, whose right-hand neighbour would slide into their place), all-digit tokens beyond the machine word, moves under a sibling whose name starts with the source's name; after EVERY step: status and whole document vs an RFC 6902 reference interpreter over plain values (Go) and vs the Coq model of patch.Do and the Coq RFC interpreter; a failing step must leave the document as it was; copy-edit sequences (copy a composite, edit inside the copy, test the source). Non-trivial: a failing step after a succeeding one. Distinct by Gallina term. Every second pointer reaches patch.Do as RFC 6901 text parsed by patch.ParsePath; an eighth of the documents use non-ASCII member names. Half of the patched documents are built by the decoder (shared null leaf), some hold lists with several nulls. Lists of 9, 10, 12 and 20 items.",
+		Rule: "sequences of 1-12 JSON Patch operations (add, remove, replace, move, copy, test; value/from occasionally missing) on one generated document; pointers aimed at existing locations, sibling keys, index +-1/len/len+1, non-numeric / negative / non-canonical tokens on lists, scalar parents, moves into own descendants and onto themselves (incl. list items of every kind moved or copied beneath themselves, whose right-hand neighbour would slide into their place), all-digit tokens beyond the machine word, moves under a sibling whose name starts with the source's name; after EVERY step: status and whole document vs an RFC 6902 reference interpreter over plain values (Go) and vs the Coq model of patch.Do and the Coq RFC interpreter; a failing step must leave the document as it was; copy-edit sequences (copy a composite, edit inside the copy, test the source). Non-trivial: a failing step after a succeeding one. Distinct by Gallina term. Every second pointer reaches patch.Do as RFC 6901 text parsed by patch.ParsePath; an eighth of the documents use non-ASCII member names. Half of the patched documents are built by the decoder (shared null leaf), some hold lists with several nulls. Lists of 9, 10, 12 and 20 items. A sixth of the cases (from-diff): the modifications of Diff(L, R) — R derived from L, or L from R — each turned into an operation object by xform.DiffMod2PatchOp (Add -> add, Change -> replace, Delete -> remove; pointer = the steps of the path read independently; value = the leaf) and applied to R step by step against the reference and the model; every 64th case: operation objects that are none (nil, no path, unknown / empty / upper-case name, missing from or value, nil target): an error, no panic, document untouched.",
 		Corpus: func() []Case {
 			d := map[string]any{"a": []any{1, 2}, "s": "x", "c": map[string]any{"k": []any{map[string]any{"v": 1}, 2}}}
 			v := func(x any) rop { return rop{Val: x, HasVal: true} }
@@ -485,6 +604,12 @@ func init() {
 			}
 			if idx%6 == 5 {
 				return c09CopyEdit(r, start, o)
+			}
+			if idx%6 == 3 {
+				return c09FromDiff(r)
+			}
+			if idx%64 == 7 {
+				return c09Invalid(r, start)
 			}
 			if idx%12 == 10 {
 				// move/copy to a location under a SIBLING whose name merely starts with the source's name
